@@ -43,6 +43,29 @@ def gen_pair(rng):
             return ref, decoy, feats
     return None, None, feats
 
+OFFSETS_5 = [(3.0, 4.0, 0.0), (1.4, 4.8, 0.0), (0.0, 3.0, 4.0), (4.8, 0.0, 1.4), (2.4, 3.2, 3.0), (0.0, 0.0, 5.0), (3.2, 2.4, 3.0), (4.0, 0.0, 3.0)]
+def plant_nominal_contacts(rng, case):
+    """add, to reference AND decoy alike, isolated residue pairs (one heavy atom each, different chains) whose atoms are at a
+    nominal distance of exactly 5.000 A on the 0.001 grid (not necessarily exact in binary64): the two Fnat routes must agree on
+    every such pair, however the rounding of the distance falls"""
+    chains = sorted({a['chainID'] for a in case['ref']})
+    base_num = max(a['resSeq'] for a in case['ref']) + 10
+    for k in range(rng.randint(2, 6)):
+        p = [round(rng.uniform(-40, 40), 3) + 200.0 * (k + 1), round(rng.uniform(-40, 40), 3), round(rng.uniform(-40, 40), 3)]
+        off = rng.choice(OFFSETS_5)
+        sg = [rng.choice([1, -1]) for _ in range(3)]
+        q = [round(p[i] + sg[i] * off[i], 3) for i in range(3)]
+        for s in (case['ref'], case['decoy']):
+            n = len(s)
+            s.append({'serial': n + 1, 'name': 'CA', 'altLoc': '', 'resName': 'GLY', 'chainID': chains[0], 'resSeq': base_num + k, 'iCode': '',
+                      'x': p[0], 'y': p[1], 'z': p[2], 'occ': 1.0, 'temp': 10.0, 'element': 'C'})
+            s.append({'serial': n + 2, 'name': 'CA', 'altLoc': '', 'resName': 'GLY', 'chainID': chains[1], 'resSeq': base_num + k, 'iCode': '',
+                      'x': q[0], 'y': q[1], 'z': q[2], 'occ': 1.0, 'temp': 10.0, 'element': 'C'})
+    for s in (case['ref'], case['decoy']):
+        s.sort(key=lambda a: a['chainID'])          # keep chain blocks contiguous (stable: order within a chain unchanged)
+        for i, a in enumerate(s):
+            a['serial'] = i + 1
+
 def all_forms(ctx, pdb2sql, case, rep):
     """run every call form on one pair; returns dict measure -> list of (form, result) and the diagnostics"""
     ref, decoy = case['ref'], case['decoy']
@@ -55,8 +78,9 @@ def all_forms(ctx, pdb2sql, case, rep):
             zf = os.path.join(ctx.scratch, f'{route}_{method}.zone')
             zfiles.append(zf)
             for mode in ('none', 'written', 'read'):
+                cut = case.get('cutoff') if route.startswith('irmsd') else None
                 if mode == 'none':
-                    res, _ = SC.call(pdb2sql, route, dp, rp, False, method=method)
+                    res, _ = SC.call(pdb2sql, route, dp, rp, False, method=method, cutoff=cut)
                 else:
                     if route == 'irmsd_sql' and mode == 'written':
                         continue             # the SQL route only reads zone files (a missing file is FileNotFoundError)
@@ -64,8 +88,8 @@ def all_forms(ctx, pdb2sql, case, rep):
                         os.remove(zf)
                     if mode == 'read' and not os.path.exists(zf):
                         # produce the file with the fast route of the same measure
-                        SC.call(pdb2sql, 'irmsd_fast', dp, rp, False, method=method, zonefile=zf)
-                    res, _ = SC.call(pdb2sql, route, dp, rp, False, method=method, zonefile=zf)
+                        SC.call(pdb2sql, 'irmsd_fast', dp, rp, False, method=method, zonefile=zf, cutoff=cut)
+                    res, _ = SC.call(pdb2sql, route, dp, rp, False, method=method, zonefile=zf, cutoff=cut)
                 out[route[:5]].append(({'route': route, 'method': method, 'zone': mode}, res))
         res, _ = SC.call(pdb2sql, 'lrmsd_sql', dp, rp, False, method=method)
         out['lrmsd'].append(({'route': 'lrmsd_sql', 'method': method, 'zone': 'none'}, res))
@@ -90,6 +114,10 @@ def judge_forms(case, out, feats):
     for measure, lst in out.items():
         vals = {json.dumps(r) for _, r in lst}
         if len(vals) <= 1:
+            continue
+        # no form returns a value (e.g. an empty interface at a small cutoff): the property is about returned
+        # values, the exception classes of the routes are not constrained to coincide
+        if all(r[0] == 'ERR' for _, r in lst):
             continue
         oks = [r[1] for _, r in lst if r[0] == 'OK']
         # thousandths may differ by one unit when the exact value sits on a rounding tie: margin rule
@@ -166,7 +194,10 @@ def explore(ctx, tier, rng, search=False):
     for k in range(n):
         ref, decoy, feats = gen_pair(rng)
         if ref is not None:
-            cases.append(({'kind': 'forms', 'ref': ref, 'decoy': decoy}, feats))
+            case = {'kind': 'forms', 'ref': ref, 'decoy': decoy, 'cutoff': rng.choice([10, 10, 7.5, 5, 12, 8.25])}
+            if rng.random() < 0.5:
+                plant_nominal_contacts(rng, case); feats.add('nominal-cutoff-contacts')
+            cases.append((case, feats))
     for case, feats in cases:
         if case.get('kind') != 'forms':
             continue
